@@ -15,6 +15,7 @@ import Cmr.Balanced
 import Cmr.Equimod
 import Cmr.Text
 import Cmr.Sums
+import Cmr.Tree
 namespace Cmr
 
 inductive Verdict where
@@ -116,6 +117,62 @@ def judgeCtu : P Verdict := do
       if isTU m n R then return .fail "ctu:witness" s!"reported complement (r={r}, c={c}) gives a TU matrix via the public operation"
       else return .ok "ctu:no"
 
+
+/-! ### decomposition trees (C03/C04) -/
+
+open P in
+/-- parses `T {…}` or `-`; returns the verdict of the tree checks (none if no tree) -/
+def judgeTreePayload : P (Option Verdict) := do
+  let t ← tok
+  if t == "-" then return none
+  if t != "T" then throw s!"expected tree, got '{t}'"
+  let (nodes, _) ← parseNode 0
+  match checkTree nodes with
+  | .ok _ => return some (.ok s!"tree:{nodes.length}:{treeTypeCounts nodes}")
+  | .error (tag, msg) => return some (.fail tag msg)
+
+def combineTree (v : Verdict) (tv : Option Verdict) : Verdict :=
+  match v, tv with
+  | .fail t m, _ => .fail t m
+  | .badOp m, _ => .badOp m
+  | _, some (.fail t m) => .fail t m
+  | .ok t, some (.ok t2) => .ok s!"{t}+{t2}"
+  | v, _ => v
+
+open P in
+def judgeTreeseq : P Verdict := do
+  let _tern ← nat
+  let _mask ← nat
+  let (_m, _n, _M) ← denseMat
+  let k ← nat
+  let _ ← many (do let _ ← tok; let _ ← nat; let _ ← nat; pure ()) k
+  expect "=>"
+  let status ← tok
+  if status != "ok" then return .fail "treeseq" s!"status {status}"
+  let mut acc : Verdict := .ok "treeseq"
+  let mut count := 0
+  let mut fuel := 40
+  while fuel > 0 do
+    fuel := fuel - 1
+    let t ← peek
+    match t with
+    | some "T" =>
+      let tv ← judgeTreePayload
+      acc := combineTree acc tv
+      count := count + 1
+    | some x =>
+      if x.startsWith "step" then
+        -- a complete/refine call returned an error: admissible only for invalid parameters
+        if x.endsWith ":noleaf" then
+          let _ ← tok
+          continue
+        if x.endsWith "err:PARAMS" || x.endsWith "err:INPUT" then return combineTree acc (some (.ok s!"steps{count}:rejected"))
+        else return .fail "treeseq:step" x
+      else if x == "notree" then return .skip "treeseq:notree"
+      else break
+    | none => break
+  return acc
+
 /-- `tu` and `regular` share the mask layout -/
 def maskBit (mask : Nat) (b : Nat) : Bool := (mask >>> b) % 2 == 1
 def maskAlg (mask : Nat) : Nat := mask % 4
@@ -152,16 +209,20 @@ def judgeTu : P Verdict := do
   if status != "ok" then return .fail "tu:status" s!"status {status}"
   let v ← tok
   let sub? ← submat
-  if m > oracleLimit || n > oracleLimit then return .skip "tu:large"
-  let expected := isTU m n M
-  if v == "undet" then
-    if maskStopFlags mask then return .ok "tu:undetermined" else return .fail "tu:verdict" "verdict not written"
-  if v == "yes" then
-    if expected then return .ok "tu:yes" else return .fail "tu:verdict" s!"impl=yes model=no violator={repr (tuViolator m n M)}"
-  else
-    if expected then return .fail "tu:verdict" "impl=no model=yes"
-    if maskBit mask 18 then return judgeViolator m n M sub? (maskBit mask 4)
-    else return .ok "tu:no"
+  let tv ← judgeTreePayload
+  let core : Verdict :=
+    if m > oracleLimit || n > oracleLimit then .skip "tu:large" else
+    let expected := isTU m n M
+    if v == "undet" then
+      (if maskStopFlags mask then .ok "tu:undetermined" else .fail "tu:verdict" "verdict not written")
+    else if v == "yes" then
+      (if expected then .ok "tu:yes" else .fail "tu:verdict" s!"impl=yes model=no violator={repr (tuViolator m n M)}")
+    else
+      (if expected then .fail "tu:verdict" "impl=no model=yes"
+       else if maskBit mask 18 then judgeViolator m n M sub? (maskBit mask 4)
+       else .ok "tu:no")
+  -- a tree's root flag must agree with the reported verdict
+  return combineTree core tv
 
 open P in
 def judgeRegular : P Verdict := do
@@ -173,12 +234,21 @@ def judgeRegular : P Verdict := do
     if status == "err:PARAMS" then return .ok "regular:params" else return .fail "regular:params" s!"invalid strategy accepted: {status}"
   if status != "ok" then return .fail "regular:status" s!"status {status}"
   let v ← tok
-  if m > 6 || n > 6 then return .skip "regular:large"
-  let expected := isRegular n M
-  if v == "undet" then
-    if maskStopFlags mask then return .ok "regular:undetermined" else return .fail "regular:verdict" "verdict not written"
-  if (v == "yes") == expected then return .ok s!"regular:{v}"
-  else return .fail "regular:verdict" s!"impl={v} model={if expected then "yes" else "no"}"
+  -- minor: "N type k (r c)* submat" or "-"
+  let mt ← tok
+  if mt == "N" then
+    let _ty ← int; let k ← nat
+    let _ ← many (do let _ ← idx; let _ ← idx; pure ()) k
+    let _ ← submat
+  let tv ← judgeTreePayload
+  let core : Verdict :=
+    if m > 6 || n > 6 then .skip "regular:large" else
+    let expected := isRegular n M
+    if v == "undet" then
+      (if maskStopFlags mask then .ok "regular:undetermined" else .fail "regular:verdict" "verdict not written")
+    else if (v == "yes") == expected then .ok s!"regular:{v}"
+    else .fail "regular:verdict" s!"impl={v} model={if expected then "yes" else "no"}"
+  return combineTree core tv
 
 open P in
 def judgePivot : P Verdict := do
@@ -985,7 +1055,34 @@ def judgeLine (line : String) : Verdict :=
     if L.status.startsWith "crash" then .fail "crash" (" ".intercalate (L.status :: L.payload)) else
     if L.status == "bad-op" then .badOp (" ".intercalate L.payload) else
     -- strip "@…" modifiers
+    let mods := L.op.takeWhile (·.startsWith "@")
     let op := L.op.dropWhile (·.startsWith "@")
+    let expect? := (mods.find? (·.startsWith "@expect=")).map (fun t => (t.drop 8).toString)
+    let clk? := mods.find? (·.startsWith "@clk=")
+    let payloadStr := "~".intercalate L.payload
+    -- C18: a run with a time limit injected at the k-th clock read: either the unlimited answer or a clean timeout
+    if clk?.isSome && expect?.isSome then
+      let generic : Option (String × String) :=
+        match parseTrailer L.trailer with
+        | none => some ("trailer", "missing trailer")
+        | some tr => judgeTrailer tr (op.headD "" == "camionx" || op.take 2 == ["camion", "sign"])
+      match generic with
+      | some (t, m) => .fail s!"timeout:{t}" m
+      | none =>
+        if L.status == "err:TIMEOUT" then
+          if L.payload.any (fun t => t.startsWith "outs=" && t.any (· == '1')) then
+            .fail "timeout:object-handed-out" s!"result object handed out together with CMR_ERROR_TIMEOUT: {payloadStr}"
+          else .ok s!"timeout:clean:{op.headD ""}"
+        else if L.status == "ok" then
+          if some payloadStr == expect? then .ok s!"timeout:same:{op.headD ""}"
+          else .fail "timeout:different-answer" s!"with a time limit the call succeeded with {payloadStr} instead of {expect?.getD ""}"
+        else .fail "timeout:status" s!"status {L.status}"
+    else
+    -- C19: the same call after a different history / with a different scratch fill pattern must give the identical result
+    if mods.contains "@junk" then .skip "junk" else
+    if expect?.isSome && some (if L.payload.isEmpty then L.status else L.status ++ "~" ++ payloadStr) != expect? then
+      .fail "history:differs" s!"result {L.status} {payloadStr} differs from the reference run {expect?.getD ""}"
+    else
     let toks := op.drop 1 ++ ["=>", L.status] ++ L.payload
     let isCamionSign := op.take 2 == ["camion", "sign"] || op.headD "" == "camionx"
     let generic : Option (String × String) :=
@@ -1001,6 +1098,7 @@ def judgeLine (line : String) : Verdict :=
       | "pivot" => runP judgePivot toks
       | "mat" => runP judgeMat toks
       | "stack" => judgeStack (op.drop 1) L.status L.payload
+      | "treeseq" => runP judgeTreeseq toks
       | "compose" => runP judgeCompose toks
       | "decomp" => runP judgeDecomp toks
       | "parse" => runP judgeParse toks
